@@ -413,6 +413,9 @@ static void replay() {
 }
 
 int main(int argc, char** argv) {
+    // OpenBLAS starts a thread pool when it is loaded (pure overhead here, and the property is about single-threaded
+    // evaluation): re-exec once with the pool disabled
+    if (!std::getenv("OPENBLAS_NUM_THREADS")) { setenv("OPENBLAS_NUM_THREADS", "1", 1); execv("/proc/self/exe", argv); }
     vh::Args args(argc, argv);
     if (args.mode == "replay") { replay(); return 0; }
     vh::Rng r(args.seed * 7919 + 46);
